@@ -257,7 +257,27 @@ ScVn == {ScA("vn-" \o x[1] \o "-" \o CName(x[2]), <<IC(x[1], 0, x[2])>>, NextPro
          : x \in {"AssertNextCallOnly", "AssertNextCallInclude"} \X ConsNext}
         \cup {ScA("vp-" \o x[1] \o "-" \o CName(x[2]), <<W_("a1", 2), IC(x[1], 0, x[2])>>, NextProbes \cup {"Burn"}, {"F", "N"}, {"a1"})
                : x \in {"AssertNextCallOnly", "AssertNextCallInclude"} \X {NoCons, Cf("F", Kc("ex", 2, {})), Cf("F", Kc("ex", 4, {})), Cf("N", Kc("nz", 0, {}))}}
-ScV == ScVw \cup ScVb \cup ScVn
+\* ---- bucket-proof lifecycle (C09: creating and releasing proofs never changes what a bucket / the worktop holds):
+\* a bucket of the whole balance, 2-3 proofs of different amounts in both creation orders, cloned proofs, every drop order,
+\* the bucket kept under its name or returned to the worktop; then every use / take / assert with every amount
+BktF == <<W_("a1", 4), TA_("F")>>
+BktN == <<WN_("a1", "N", {1, 2}), TA_("N")>>
+DropSeqs2 == {<<>>, <<Dr_(1)>>, <<Dr_(2)>>, <<Dr_(1), Dr_(2)>>, <<Dr_(2), Dr_(1)>>}
+ProofCfgF == {<<"24", <<BP_(1, 2), BP_(1, 4)>>, d>> : d \in DropSeqs2} \cup {<<"42", <<BP_(1, 4), BP_(1, 2)>>, d>> : d \in DropSeqs2}
+             \cup {<<"24c", <<BP_(1, 2), BP_(1, 4), Cl_(2)>>, d>> : d \in {<<Dr_(2)>>, <<Dr_(2), Dr_(3)>>, <<Dr_(3), Dr_(2), Dr_(1)>>, <<Dr_(1)>>}}
+             \cup {<<"42c", <<BP_(1, 4), BP_(1, 2), Cl_(1)>>, d>> : d \in {<<Dr_(1)>>, <<Dr_(1), Dr_(3)>>, <<Dr_(3), Dr_(1), Dr_(2)>>, <<Dr_(2)>>}}
+             \cup {<<"242", <<BP_(1, 2), BP_(1, 4), BP_(1, 2)>>, d>> : d \in {<<Dr_(2)>>, <<Dr_(2), Dr_(1)>>, <<Dr_(2), Dr_(1), Dr_(3)>>}}
+ProofCfgN == {<<"n1-12", <<BPN_(1, {1}), BPN_(1, {1, 2})>>, d>> : d \in DropSeqs2}
+             \cup {<<"n12-1", <<BPN_(1, {1, 2}), BPN_(1, {1})>>, d>> : d \in DropSeqs2}
+DName(d) == IF d = <<>> THEN "0" ELSE IF Len(d) = 1 THEN ToString(d[1].k) ELSE IF Len(d) = 2 THEN ToString(d[1].k) \o ToString(d[2].k)
+            ELSE ToString(d[1].k) \o ToString(d[2].k) \o ToString(d[3].k)
+NamedProbes == BucketUse \cup {"BucketProofOfAmount", "BucketProofOfAll", "BucketProofOfNF"}
+WorktopProbes == {"TakeFromWorktop", "TakeNF", "TakeAll", "AssertContains", "AssertNF", "DepositBatch"}
+ScBP == {Sc("bp-" \o x[1] \o "-d" \o DName(x[3]) \o "-named", BktF \o x[2] \o x[3], NamedProbes, {"F"}) : x \in ProofCfgF}
+        \cup {Sc("bp-" \o x[1] \o "-d" \o DName(x[3]) \o "-wt", BktF \o x[2] \o x[3] \o <<Rt_(1)>>, WorktopProbes, {"F"}) : x \in ProofCfgF}
+        \cup {Sc("bp-" \o x[1] \o "-d" \o DName(x[3]) \o "-named", BktN \o x[2] \o x[3], NamedProbes, {"N"}) : x \in ProofCfgN}
+        \cup {Sc("bp-" \o x[1] \o "-d" \o DName(x[3]) \o "-wt", BktN \o x[2] \o x[3] \o <<Rt_(1)>>, WorktopProbes, {"N"}) : x \in ProofCfgN}
+ScV == ScVw \cup ScVb \cup ScVn \cup ScBP
 ScWV == ScW \cup ScX \cup ScV
 ScC03 == ScF \cup ScE \cup {x \in ScW : x.name \in {"w0", "w1"}} \cup {x \in ScH : x.name \in {"h1", "h6", "u5", "u7"}}
 ScC04 == ScF \cup ScE \cup {x \in ScH : x.name \in {"h1", "h4", "u1", "u3", "u5", "u6", "u7"}}
